@@ -155,16 +155,15 @@ def r2(ctx):
     ctx.require(fetch_binds, "first row fetch not found")
     first_fetch = fetch_binds[0]
     row = first_fetch[0]
+    tests = [n.id for n in g.nodes if n.kind == "test" and unparse(n.stmt.test).replace(" ", "") in (f"{row}isNone", f"{row}isnotNone")]
+    ctx.require(tests, f"`if {row} is None` test not found")
     none_returns = [nid for nid in g.find(lambda n: n.kind == "stmt" and isinstance(n.stmt, ast.Return))
                     if (f"{row} is None", True) in _guards(g, nid)]
-    ctx.require(none_returns, f"no return under `{row} is None`")
     bad = [g.node(n).describe() for n in none_returns if ("raise_for_none", False) not in _guards(g, n)]
     ctx.check(not bad, f"{base}:missing-row-returns-none-only-without-raise_for_none",
               f"with no row, _only_one_row can return instead of raising although raise_for_none is set: {bad}",
-              "return under `row is None` is dominated by `not raise_for_none`", f.loc)
+              f"{len(none_returns)} return(s) under `{row} is None`, dominated by `not raise_for_none`", f.loc)
     # (c) closing: after a first row was fetched, every normal exit passes a close or a further fetch
-    tests = [n.id for n in g.nodes if n.kind == "test" and unparse(n.stmt.test).replace(" ", "") in (f"{row}isNone", f"{row}isnotNone")]
-    ctx.require(tests, f"`if {row} is None` test not found")
     t0 = min(tests, key=lambda i: g.node(i).lineno)
     pos_is_none = "isnot" not in unparse(g.node(t0).stmt.test).replace(" ", "")
     have_row = [b for b, lab in g.succ[t0] if lab == ("false" if pos_is_none else "true")]
@@ -327,12 +326,13 @@ R.mutant("result-first-raises-for-second", RES,
 R.mutant("result-scalar-one-not-scalar", RES,
          sub("            raise_for_second_row=True, raise_for_none=True, scalar=True\n", "            raise_for_second_row=True, raise_for_none=True, scalar=False\n"), "C10-R1")
 R.mutant("async-one-or-none-raises-for-none", ARES,
-         sub("    async def one_or_none(self) -> Optional[RowMapping]:", "    async def one_or_none(self) -> Optional[RowMapping]:\n        return await greenlet_spawn(self._only_one_row, True, True, False)\n"), "C10-R1")
+         sub("        scalar values, rather than :class:`_engine.Row` objects,\n        are returned.\n\n        \"\"\"\n        return await greenlet_spawn(self._only_one_row, True, False, False)",
+             "        scalar values, rather than :class:`_engine.Row` objects,\n        are returned.\n\n        \"\"\"\n        return await greenlet_spawn(self._only_one_row, True, True, False)"), "C10-R1")
 R.mutant("async-scalar-checks-second-row", ARES,
          sub("        return await greenlet_spawn(self._only_one_row, False, False, True)", "        return await greenlet_spawn(self._only_one_row, True, False, True)"), "C10-R1")
 R.mutant("result-one-value-dropped", RES,
-         sub("        return self._only_one_row(\n            raise_for_second_row=True, raise_for_none=True, scalar=False\n        )\n\n    def scalar(",
-             "        self._only_one_row(\n            raise_for_second_row=True, raise_for_none=True, scalar=False\n        )\n        return None\n\n    def scalar("), "C10-R1")
+         sub("        return self._only_one_row(\n            raise_for_second_row=True, raise_for_none=True, scalar=False\n        )\n\n    # special case to handle mypy issue:",
+             "        self._only_one_row(\n            raise_for_second_row=True, raise_for_none=True, scalar=False\n        )\n        return None\n\n    # special case to handle mypy issue:"), "C10-R1")
 R.mutant("no-result-raised-unconditionally", CY,
          sub("        if row is None:\n            if raise_for_none:\n                raise exc.NoResultFound(\n                    \"No row was found when one was required\"\n                )\n            else:\n                return None\n",
              "        if row is None:\n            raise exc.NoResultFound(\n                \"No row was found when one was required\"\n            )\n"), "C10-R2")
